@@ -53,7 +53,7 @@ def segment_bounds(lines, ln, stops):
     return ln - 1, end
 
 
-def validate(ctx, trace, classify, drop_stops=None, max_known=6, timeout=1200):
+def validate(ctx, trace, classify, drop_stops=None, max_known=25, timeout=1800):
     """validate the trace; rejections are classified into keys; a rejection whose key is listed
     in known-findings.txt is reported as KNOWN-FINDING, its lines are dropped and validation
     continues; anything else is a VIOLATION"""
@@ -84,12 +84,20 @@ def validate(ctx, trace, classify, drop_stops=None, max_known=6, timeout=1200):
         what = "%s rejected: %s" % (ev.get("e"), ev.get("text") or ev.get("err") or "")
         if ctx.report_rejection(cur, res, key=key, what=what[:300]):
             return False          # VIOLATION printed
-        # known finding: drop the offending lines and go on
+        # known finding: drop the offending lines and go on with the rest of the trace
+        # (everything before the scenario of the rejected line has been accepted already)
         if ev.get("e") == "Query" or drop_stops is None:
             a, b = ln - 1, ln
         else:
             a, b = segment_bounds(lines, ln, drop_stops)
-        del lines[a:b]
+        start = 0
+        for i in range(ln - 2, -1, -1):
+            if lines[i].startswith('{"e":"Reset"'):
+                start = i + 1
+                break
+        ctx.cov["events_validated"] += start
+        ctx.cov["traces_validated_against_impl"] += sum(1 for l in lines[:start] if l.startswith('{"e":"Reset"'))
+        lines = lines[start:a] + lines[b:]
         cur = trace + ".k%d" % it
         with open(cur, "w") as f:
             f.write("\n".join(lines) + "\n")
